@@ -257,6 +257,28 @@ def rule_semrules(crate, dispositions):
         report("CMDWORDS:command-words-are-free-identifiers", crate.file_of(fs[0]), fs[0]["line"], not free,
                "every command word is a reserved identifier or a keyword",
                "the command words %s are neither keywords nor reserved identifiers: `let reset = 5` is accepted, and in the REPL the line `reset` then wipes the session while the same lines in a file evaluate to 5 (`help * 3`, `list` behave likewise)." % ", ".join(free))
+    # ---- SUGARNAME: the echo chooses the temperature sugar (`3 °C`, `x -> °C`) by the NAME of the callee alone; the
+    # names are ordinary identifiers, so a user function (or parameter) of that name is echoed in a form that denotes
+    # the standard library's function
+    sug = [b for d, b in crate.hir.items() if d.endswith("typed_ast::is_printed_in_sugar_form") or "is_printed_in_sugar_form::" in d]
+    pp_new2 = crate.find_fn("prefix_parser::PrefixParser::new", required=False)
+    if not sug or pp_new2 is None:
+        out.error("anchor missing: typed_ast::is_printed_in_sugar_form / PrefixParser::new")
+    else:
+        names = set()
+        for b_ in sug:
+            for y in walk(b_["body"]):
+                if y.get("k") == "Lit" and isinstance(y.get("lit"), dict) and y["lit"].get("lk") == "str":
+                    names.add(y["lit"]["v"])
+        reserved2 = {y["lit"]["v"] for y in walk(pp_new2["body"]) if y.get("k") == "Lit" and isinstance(y.get("lit"), dict) and y["lit"].get("lk") == "str"}
+        from prec import tokenizer_map as _tm
+
+        free2 = sorted(n_ for n_ in names if n_.isidentifier() and n_ not in reserved2 and n_ not in set(_tm(crate)))
+        if len(names) < 2:
+            out.error("anchor missing: fewer than 2 sugar names found in is_printed_in_sugar_form")
+        report("SUGARNAME:echo:sugar-chosen-by-free-name", crate.file_of(sug[0]), sug[0]["line"], not free2,
+               "every name that selects the sugar form is reserved",
+               "the echo prints a call in the temperature sugar form whenever the callee is CALLED %s — ordinary, user-definable identifiers: after `fn celsius(x) = x + 1`, `celsius(3)` (= 4) is echoed as `3 -> °C`, which denotes the standard library's conversion and is rejected (expected Temperature, got Scalar); a user-defined `from_celsius(3)` is echoed as `3 °C`." % ", ".join(free2))
     # ---- HARDNAME: a name the language does not reserve is looked up in a session table and the result unwrapped
     hard = []
     for nm in ("bytecode_interpreter::BytecodeInterpreter::compile_expression", "bytecode_interpreter::BytecodeInterpreter::compile_statement"):
